@@ -431,7 +431,14 @@ func (a *muxAnalysis) oracleC16() {
 				fail("bandwidth", "peak", "BANDWIDTH=%d, peak bit rate of the listed segments is %.0f", v.Bandwidth, peak)
 				return
 			}
-			if math.Abs(float64(v.AvgBandwidth)-mean) > tol(mean, durs) {
+			// the sum of n durations carries n times the text's rounding error
+			nseg := 0
+			for _, seg := range sn.pl.Segments {
+				if !seg.Gap {
+					nseg++
+				}
+			}
+			if math.Abs(float64(v.AvgBandwidth)-mean) > mean*(float64(nseg+1)*1e-5/math.Max(durs.Seconds(), 1e-5))+2 {
 				fail("bandwidth", "mean", "AVERAGE-BANDWIDTH=%d, mean bit rate of the listed segments is %.0f", v.AvgBandwidth, mean)
 				return
 			}
